@@ -130,6 +130,10 @@ type oInterp struct {
 	p        *Prog
 	maxDepth int
 	steps    int
+	// oracle, when set, answers calls that cannot be interpreted because an argument
+	// is an opaque object (a polygon of unknown shape): it is asked for a value of the
+	// call's single bool / small-enum result.  The driver enumerates every answer.
+	oracle func(f *types.Func, res types.Type) (oval, bool)
 }
 
 type oCtl int
@@ -932,6 +936,19 @@ func (fr *oFrame) call(call *ast.CallExpr) []oval {
 		args = append(args, v)
 	}
 	res, why := fr.it.Call(f, recv, args, fr.depth+1)
+	if why != "" && fr.it.oracle != nil && sig.Results().Len() == 1 {
+		hasOpaque := false
+		for _, v := range append([]oval{recv}, args...) {
+			if iv, ok := v.(oIface); ok && iv.opaque != nil {
+				hasOpaque = true
+			}
+		}
+		if hasOpaque {
+			if v, ok := fr.it.oracle(f, sig.Results().At(0).Type()); ok {
+				return []oval{v}
+			}
+		}
+	}
 	if why != "" {
 		n := sig.Results().Len()
 		if n == 0 {
